@@ -9,6 +9,9 @@ import (
 	"github.com/database64128/shadowsocks-go/ss2022"
 )
 
+// extras lets each family add its constants from its own file (init() appends).
+var extras []func(map[string]any)
+
 func main() {
 	c := map[string]any{
 		"MaxEpochDiff":            int64(ss2022.MaxEpochDiff),
@@ -18,6 +21,8 @@ func main() {
 		"MaxPaddingLength":        int64(ss2022.MaxPaddingLength),
 		"IdentityHeaderLength":    int64(ss2022.IdentityHeaderLength),
 	}
-	extra(c)
+	for _, f := range extras {
+		f(c)
+	}
 	json.NewEncoder(os.Stdout).Encode(c)
 }
